@@ -13,6 +13,22 @@ from torch.fx import Interpreter
 from unit_scaling.transforms.utils import apply_transform
 
 
+class _Tap(torch.autograd.Function):
+    """identity with its own autograd node: hands on a copy of the value (so that an in-place consumer - relu_, += - does not touch
+    the producer's tensor, and an op that returns its input object itself still gets a separate edge) and records the gradient that
+    arrives from this node's consumers"""
+
+    @staticmethod
+    def forward(ctx, x, rec):
+        ctx.rec = rec
+        return x.clone()
+
+    @staticmethod
+    def backward(ctx, g):
+        ctx.rec["bwd"] = g.detach().clone()
+        return g, None
+
+
 class HookInterp(Interpreter):
     def __init__(self, gm, store):
         super().__init__(gm)
@@ -24,13 +40,7 @@ class HookInterp(Interpreter):
             rec = {"fwd": out.detach().clone(), "bwd": None, "requires_grad": out.requires_grad}
             self.store[n.name] = rec
             if out.requires_grad:
-                # an op may return its input object itself (F.dropout with p=0, identity reshapes): give this node its
-                # own autograd edge so that the hook sees the gradient arriving from *this node's* consumers only
-                out = out.view_as(out)
-
-                def hook(g, rec=rec):
-                    rec["bwd"] = g.detach().clone()
-                out.register_hook(hook)
+                out = _Tap.apply(out, rec)
         else:
             self.store[n.name] = None
         return out
